@@ -45,7 +45,7 @@ def gen_case(rng, k, workdir):
     c = None
     t = 0
     while c is None or not c["planted"]:
-        c = FG.make_case(rng, k + 97 * t, flavor="mixed", pattern=["pair", "asym4", "bent3_y", "axis_asym4", "single", "collinear3"][k % 6], big=(k % 4 == 1))
+        c = FG.make_case(rng, k + 97 * t, flavor="mixed", pattern=["pair", "asym4", "collinear3", "axis_asym4", "tri_sym3", "single", "bent3_y"][k % 7], big=(k % 4 == 1))
         t += 1
     els = list(c["els"])
     pos = np.array(c["pos"])
